@@ -6,6 +6,7 @@ composer options write_blackbox / defparam / definition_list.  canon_verilog = p
 width, base), cables (name, width, base), instances (module, parameters, attributes) and the bit-level map
 (cable, bit index) -> set of {port bit | instance.port bit | assign side}; assigns as a multiset per width."""
 import os
+import re
 import sys
 import glob
 import shutil
@@ -89,8 +90,14 @@ def canon_verilog(n, ctx=None):
     return out
 
 
-def diff_canon(a, b, relaxed_prims=False):
+def diff_canon(a, b, relaxed_prims=False, emptied_ok=False):
     for k in a:
+        if emptied_ok and k in b and not a[k]["primitive"] and not a[k].get("cables") and not a[k].get("insts") and not b[k]["primitive"]:
+            # (only under the fence of finding flattened-names-written-unescaped) a module that flatten emptied keeps its ports
+            # but no wire; the reader gives every declared port its wire again: ports are compared, the wires are not
+            if a[k]["ports"] != b[k]["ports"]:
+                return "module %s ports: %s" % (k, canon.first_diff(a[k]["ports"], b[k]["ports"]))
+            continue
         if k not in b:
             if relaxed_prims and a[k]["primitive"]:
                 continue        # a black box that is not written and never instantiated disappears
@@ -153,15 +160,35 @@ def run_case(ctx, i, rng):
                 ctx.count("source_rejected_by_reader")
                 return
         transform = rng.choice(["none", "none", "uniquify", "flatten", "clone"])
+        rename_flat = False
         if transform == "flatten" and common.fenced(me, "flattened-names-written-unescaped"):
-            transform = "uniquify"
-            ctx.count("fenced:flatten-before-compose")
+            # fence: the names flatten mints ('a/b') are given a writable spelling before composing, as a user has to; the
+            # rest of what flatten leaves behind (emptied modules, merged nets) is written and read back as it is
+            rename_flat = True
+            ctx.count("fenced:flattened-names-respelled-before-compose")
         try:
             if transform == "uniquify":
                 uniquify(n)
             elif transform == "flatten":
                 uniquify(n)
                 flatten(n)
+                if rename_flat:
+                    for l_ in n.libraries:
+                        for d_ in l_.definitions:
+                            for coll in (list(d_.children), list(d_.cables)):
+                                taken = set(x_.name for x_ in coll)
+                                for x_ in coll:
+                                    if x_.name and "/" in x_.name:
+                                        nm_ = x_.name.replace("\\", "").replace(" ", "").replace("/", "__")
+                                        nm_ = re.sub(r"[^A-Za-z0-9_]", "_", nm_)
+                                        if not re.match(r"[A-Za-z_]", nm_):
+                                            nm_ = "f_" + nm_
+                                        k_ = 0
+                                        while nm_ in taken:
+                                            k_ += 1
+                                            nm_ = "%s_%d" % (nm_, k_)
+                                        taken.add(nm_)
+                                        x_.name = nm_
             elif transform == "clone":
                 n = n.clone()
         except Exception as ex:  # noqa: BLE001
@@ -184,6 +211,9 @@ def run_case(ctx, i, rng):
                 sdn.compose(n, f, **opts)
             except Exception as ex:  # noqa: BLE001
                 fr = probes.innermost_frame(ex) or ""
+                if rename_flat and isinstance(ex, AssertionError) and "multiple cables appear to be connected to a single assignment" in str(ex):
+                    ctx.count("fenced:flatten-left-an-assign-across-cables")      # second half of the same open finding
+                    return
                 ctx.violation("composer-raised:%s:%s" % (type(ex).__name__, fr.split(":")[-1]), "%s at %s | %s transform=%s opts=%s" % (
                     str(ex)[:120], fr, what, transform, opts))
                 return
@@ -200,7 +230,7 @@ def run_case(ctx, i, rng):
             if opts.get("write_blackbox") is False:
                 # black boxes are deliberately not written: they come back as inferred primitives; compare the rest
                 pass
-            dd = diff_canon(a, b, relaxed_prims=not opts.get("write_blackbox", True))
+            dd = diff_canon(a, b, relaxed_prims=not opts.get("write_blackbox", True), emptied_ok=rename_flat)
             if dd:
                 part = "bits" if " bits: " in dd else ("ports" if "ports" in dd else ("assigns" if "assigns" in dd else "other"))
                 ctx.violation("roundtrip-differs:%s:%s" % (part, transform), "%s | %s opts=%s" % (dd, what, opts), {"written": open(f).read()[:5000]})
